@@ -205,6 +205,8 @@ def check(an, rep, tier):
     _callers = {f.qualname for f in prog.all_functions()
                 if f.module.name in ('sample', 'sample_func')}
     _RP.check_param_forwarding(prog, rep, callers=_callers)
+    from .. import rules_proto as _RPZ
+    _RPZ.check_none_vs_zero(prog, rep, modules={'sample', 'sample_func'})
     rep.floor('L-lin', 4, 'contractions with linear operands')
     rep.floor('N-prob', 4, 'choice(p=...) sites')
     rep.floor('S-ret', 8, 'sampler results')
